@@ -33,7 +33,7 @@ def tokenize(lines):
         ("SKIP", r"\s+"),
         (
             "OTHER",
-            r"[,:;\-\?\+*%\[\]/\(\)]|<<|>>|!=|==|<=|>=|>|<|=|{|}|&|\^|\|",
+            r"[,:;\-\?\+*%\[\]/\(\)~]|<<|>>|!=|==|<=|>=|>|<|=|{|}|&|\^|\|",
         ),
     ]
     tok_re = "|".join(f"(?P<{name}>{pat})" for name, pat in tok_spec)
@@ -385,6 +385,10 @@ class Reader:
             operation = "-"
             a = self.parse_value_ref()
             ins = ir.Unop(operation, a, name, ty)
+        elif self.peek == "~":
+            self.consume("~")
+            a = self.parse_value_ref(ty=ty)
+            ins = ir.Unop("~", a, name, ty)
         else:  # pragma: no cover
             raise NotImplementedError(self.peek)
         return ins
